@@ -32,6 +32,9 @@ func (m *machine) runConc(s step) {
 		h := s.Hs[g%len(s.Hs)]
 		p := m.pkts[h]
 		frame := m.written[h]
+		if op == "ReadPacket" && frame == nil {
+			op = "WriteTo" // nothing written yet: the first encoding ever happens concurrently
+		}
 		results[g] = result{G: g, Op: op, H: h, Same: true, OK: true, Bytes: []int{}}
 		done.Add(1)
 		go func(g int, op string, p any, frame []byte) {
